@@ -404,9 +404,7 @@ func vC04DBLevel(t *testing.T, run *vC04Run, b vC04Beh, bi int, d *vC04DBs, useD
 		var err error
 		switch st.A {
 		case "Child":
-			if !run.known(st.P) {
-				return false
-			}
+			// a parent the real system never created is named by an explicit id: the call is then rejected for real
 			parent := run.idOf(st.P)
 			ev.p = parent
 			var newRev string
@@ -496,6 +494,8 @@ func vC04DBLevel(t *testing.T, run *vC04Run, b vC04Beh, bi int, d *vC04DBs, useD
 			ev.ww, ev.wbr, ev.wcf = doc.History.winningRevision(ctx)
 			ev.leaves = doc.History.GetLeaves()
 			ev.wb = vC04UnknownBody
+			// served from storage, not from the revision cache entry made when the revision was written
+			d.db[i].FlushRevisionCacheForTest()
 			served, berr := col.Get1xRevBody(ctx, docid, ev.cur, false, nil)
 			if berr == nil {
 				ev.wb = run.tokenOfBody(served)
